@@ -1,6 +1,8 @@
 /-
   C05 — helper lemmas: store algebra, what one step of a consumer does, the burn invariant (at most one request
-  obtains a burn-on-use secret when the consume step is atomic).  Core Lean only.
+  obtains a burn-on-use secret when the consume step is atomic), the mark invariant (two acceptances of one nonce are
+  a TTL apart), dead secrets stay dead, every finished code redemption leaves the code burned, and the same
+  invariants for schedules that do not separate the two calls of a non-atomic consume step.  Core Lean only.
 -/
 import NutsModel.C05.OneTime
 namespace Nuts.C05
@@ -402,5 +404,695 @@ theorem won_took (t : Thread) (b : BurnKind) (hk : t.key.ns = .burn b) (h : t.wo
   | burn r pc f =>
     cases pc <;> simp_all [Thread.won, Thread.outcome, Thread.took, Outcome.took]
   | mark r pc f => simp [Thread.key, MarkReq.key] at hk
+
+
+/-! ### the mark invariant -/
+
+/-- check-and-register of the mark consumers is atomic: one call, or two calls under the database mutex -/
+def AtomicMark (cfg : Cfg) : Prop := ∀ m, cfg.mark m ≠ .getThenPut
+
+theorem stepMark_newWinner_crit (cfg : Cfg) (st : Store) (now : Nat) (lock : Option Nat) (i : Nat) (r : MarkReq) (pc : MarkPc)
+    (h0 : pc ≠ .done .ok) (h1 : (stepMark cfg st now lock i r pc).1 = .done .ok) (hl : cfg.markLocks r.kind = true) :
+    pc.inCrit = true := by
+  cases pc <;> simp only [stepMark] at h1 <;> (repeat' split at h1) <;> simp_all [MarkPc.inCrit, Cfg.markLocks]
+
+theorem stepMark_newMid' (cfg : Cfg) (st : Store) (now : Nat) (lock : Option Nat) (i : Nat) (r : MarkReq) (pc : MarkPc)
+    (h1 : (stepMark cfg st now lock i r pc).1 = .atPut true) : pc = .atCall := by
+  cases pc <;> simp only [stepMark] at h1 <;> (repeat' split at h1) <;> simp_all
+
+structure MStepSum (cfg : Cfg) (st : Store) (now : Nat) (t : Thread) (x : Thread × Store × Option Nat) : Prop where
+  fin : x.1.fin = t.fin ∨ x.1.fin = now
+  markKeys : ∀ (k : Key) (m : MarkKind), k.ns = .mark m →
+    stFind x.2.1 k = stFind st k ∨ (k = t.key ∧ stFind x.2.1 k = some (markEntry cfg now m))
+  doneStable : ∀ (r : MarkReq) (o : Outcome) (f : Nat), t = .mark r (.done o) f → x.1 = t
+  newWinner : ∀ (r : MarkReq) (f' : Nat), x.1 = .mark r (.done .ok) f' →
+    t = .mark r (.done .ok) f' ∨
+    (f' = now ∧ stFind x.2.1 r.key = some (markEntry cfg now r.kind) ∧
+      (cfg.markLocks r.kind = true → t.inCrit cfg = true) ∧
+      ((∃ f, t = .mark r .atCall f ∧ stGet cfg.expInclusive st now r.key = none) ∨ (∃ f, t = .mark r (.atPut true) f)))
+  newMid : ∀ (r : MarkReq) (f' : Nat), x.1 = .mark r (.atPut true) f' →
+    (∃ f, t = .mark r .atCall f) ∧ stGet cfg.expInclusive st now r.key = none ∧ cfg.mark r.kind ≠ .putIfAbsent
+
+theorem stepThread_msum (cfg : Cfg) (st : Store) (now : Nat) (lock : Option Nat) (i : Nat) (t : Thread) :
+    MStepSum cfg st now t (stepThread cfg st now lock i t) := by
+  cases t with
+  | burn r pc f =>
+    have hs := stepBurn_store cfg st now lock i r pc
+    refine ⟨?_, ?_, ?_, ?_, ?_⟩
+    · simp only [stepThread, Thread.fin]; split <;> simp
+    · intro k m hk
+      left
+      simp only [stepThread]
+      rcases hs with hs | hs <;> rw [hs]
+      have hkk : k ≠ r.key := by intro h; rw [h] at hk; simp [BurnReq.key] at hk
+      exact stFind_erase_ne _ _ _ hkk
+    · intro r' o f' h; cases h
+    · intro r' f' h; simp [stepThread] at h
+    · intro r' f' h; simp [stepThread] at h
+  | mark r pc f =>
+    have hs := stepMark_store cfg st now lock i r pc
+    refine ⟨?_, ?_, ?_, ?_, ?_⟩
+    · simp only [stepThread, Thread.fin]; split <;> simp
+    · intro k m hk
+      simp only [stepThread]
+      rcases hs with hs | hs <;> rw [hs]
+      · exact Or.inl rfl
+      · by_cases hkk : k = r.key
+        · right
+          refine ⟨hkk, ?_⟩
+          rw [hkk] at hk ⊢
+          simp [MarkReq.key] at hk
+          rw [stFind_put_self, hk]
+        · left; exact stFind_put_ne _ _ _ _ hkk
+    · intro r' o f' h
+      injection h with h1 h2 h3
+      subst h1; subst h2; subst h3
+      simp [stepThread, stepMark_done]
+    · intro r' f' h
+      simp only [stepThread] at h
+      injection h with h1 h2 h3
+      subst h1
+      by_cases hpc : pc = .done .ok
+      · left
+        subst hpc
+        simp [stepMark_done] at h3
+        rw [h3]
+      · right
+        have hn := stepMark_newWinner cfg st now lock i r pc hpc h2
+        have hne : (stepMark cfg st now lock i r pc).1 ≠ pc := by rw [h2]; exact fun h => hpc h.symm
+        refine ⟨?_, ?_, ?_, ?_⟩
+        · simp [hne] at h3; exact h3.symm
+        · simp only [stepThread]; rw [hn.1]; exact stFind_put_self _ _ _
+        · intro hl; simp [Thread.inCrit, hl]; exact stepMark_newWinner_crit cfg st now lock i r pc hpc h2 hl
+        · rcases hn.2 with ⟨h4, h5⟩ | h4
+          · exact Or.inl ⟨f, by rw [h4], h5⟩
+          · exact Or.inr ⟨f, by rw [h4]⟩
+    · intro r' f' h
+      simp only [stepThread] at h
+      injection h with h1 h2 h3
+      subst h1
+      have := stepMark_newMid cfg st now lock i r pc h2
+      exact ⟨⟨f, by rw [stepMark_newMid' cfg st now lock i r pc h2]⟩, this.1, this.2⟩
+
+
+structure MInv (cfg : Cfg) (w : World) : Prop where
+  lockd : ∀ (i : Nat) (t : Thread), w.ths[i]? = some t → t.inCrit cfg = true → w.lock = some i
+  time : ∀ (i : Nat) (t : Thread), w.ths[i]? = some t → t.fin ≤ w.now
+  kept : ∀ (i : Nat) (r : MarkReq) (f : Nat), w.ths[i]? = some (Thread.mark r (.done .ok) f) →
+    ∃ e, stFind w.store r.key = some e ∧ f + cfg.ttl (.mark r.kind) ≤ e.exp
+  sep : ∀ (i j : Nat) (ri rj : MarkReq) (fi fj : Nat), i ≠ j →
+    w.ths[i]? = some (Thread.mark ri (.done .ok) fi) → w.ths[j]? = some (Thread.mark rj (.done .ok) fj) →
+    ri.key = rj.key → fi + cfg.ttl (.mark ri.kind) ≤ fj ∨ fj + cfg.ttl (.mark ri.kind) ≤ fi
+  mid : ∀ (j : Nat) (r : MarkReq) (f : Nat), w.ths[j]? = some (Thread.mark r (.atPut true) f) →
+    cfg.markLocks r.kind = true ∧
+    ∀ (i : Nat) (ri : MarkReq) (fi : Nat), w.ths[i]? = some (Thread.mark ri (.done .ok) fi) → ri.key = r.key →
+      fi + cfg.ttl (.mark r.kind) ≤ w.now
+
+theorem markKey_kind (a b : MarkReq) (h : a.key = b.key) : a.kind = b.kind := by
+  simp [MarkReq.key] at h; exact h.1
+
+theorem MInv_stepW (cfg : Cfg) (ha : AtomicMark cfg) (w : World) (i : Nat) (inv : MInv cfg w) : MInv cfg (stepW cfg w i) := by
+  unfold stepW
+  cases hi : w.ths[i]? with
+  | none => exact inv
+  | some t =>
+    simp only
+    have S := stepThread_sum cfg w.store w.now w.lock i t (inv.lockd i t hi)
+    have M := stepThread_msum cfg w.store w.now w.lock i t
+    generalize stepThread cfg w.store w.now w.lock i t = x at S M
+    have old : ∀ (j : Nat) (tj : Thread), (w.ths.set i x.1)[j]? = some tj → (j = i ∧ tj = x.1) ∨ (j ≠ i ∧ w.ths[j]? = some tj) :=
+      fun j tj h => getElem?_set_cases _ _ _ _ _ h
+    -- a winner of the new world is an old winner (same finishing time) or thread i winning right now
+    have winOld : ∀ (j : Nat) (r : MarkReq) (f : Nat), (w.ths.set i x.1)[j]? = some (Thread.mark r (.done .ok) f) →
+        w.ths[j]? = some (Thread.mark r (.done .ok) f) ∨
+        (j = i ∧ x.1 = Thread.mark r (.done .ok) f ∧ f = w.now ∧ stFind x.2.1 r.key = some (markEntry cfg w.now r.kind) ∧
+          (cfg.markLocks r.kind = true → t.inCrit cfg = true) ∧
+          ((∃ f0, t = .mark r .atCall f0 ∧ stGet cfg.expInclusive w.store w.now r.key = none) ∨ (∃ f0, t = .mark r (.atPut true) f0))) := by
+      intro j r f h
+      rcases old j _ h with ⟨hj, he⟩ | ⟨hj, he⟩
+      · rcases M.newWinner r f he.symm with h1 | ⟨h1, h2, h3, h4⟩
+        · left; rw [hj, hi, h1]
+        · right; exact ⟨hj, he.symm, h1, h2, h3, h4⟩
+      · exact Or.inl he
+    -- the entry of an old winner survives the step, with an expiry that still covers it
+    have keepOld : ∀ (j : Nat) (r : MarkReq) (f : Nat), w.ths[j]? = some (Thread.mark r (.done .ok) f) →
+        ∃ e, stFind x.2.1 r.key = some e ∧ f + cfg.ttl (.mark r.kind) ≤ e.exp := by
+      intro j r f h
+      obtain ⟨e, he, hle⟩ := inv.kept j r f h
+      rcases M.markKeys r.key r.kind rfl with h1 | ⟨_, h1⟩
+      · exact ⟨e, by rw [h1]; exact he, hle⟩
+      · refine ⟨_, h1, ?_⟩
+        have := inv.time j _ h
+        simp [Thread.fin] at this
+        simp [markEntry]; omega
+    -- an old winner of the key thread i wins right now finished at least a TTL ago
+    have fresh : ∀ (j : Nat) (r : MarkReq) (f : Nat) (ri : MarkReq), w.ths[j]? = some (Thread.mark r (.done .ok) f) → r.key = ri.key →
+        ((∃ f0, t = .mark ri .atCall f0 ∧ stGet cfg.expInclusive w.store w.now ri.key = none) ∨ (∃ f0, t = .mark ri (.atPut true) f0)) →
+        f + cfg.ttl (.mark r.kind) ≤ w.now := by
+      intro j r f ri h hk hc
+      rcases hc with ⟨f0, _, hg⟩ | ⟨f0, ht⟩
+      · obtain ⟨e, he, hle⟩ := inv.kept j r f h
+        have := stGet_none_find_some _ _ _ _ e hg (by rw [← hk]; exact he)
+        omega
+      · rw [ht] at hi
+        have := (inv.mid i ri f0 hi).2 j r f h hk
+        rw [markKey_kind _ _ hk]; exact this
+    refine ⟨?_, ?_, ?_, ?_, ?_⟩
+    · intro j tj h hc
+      rcases old j tj h with ⟨hj, he⟩ | ⟨hj, he⟩
+      · subst hj; subst he; exact S.lock1 hc
+      · have hlj := inv.lockd j tj he hc
+        rcases S.lock2 with h2 | ⟨h2, _⟩ | ⟨h2, _⟩
+        · rw [h2]; exact hlj
+        · rw [h2] at hlj; cases hlj
+        · rw [h2] at hlj; injection hlj with hh; exact absurd hh.symm hj
+    · intro j tj h
+      rcases old j tj h with ⟨hj, he⟩ | ⟨hj, he⟩
+      · subst he
+        have := inv.time i t hi
+        rcases M.fin with h1 | h1 <;> rw [h1] <;> simp <;> omega
+      · exact inv.time j tj he
+    · intro j r f h
+      rcases winOld j r f h with h1 | ⟨_, _, h2, h3, _⟩
+      · exact keepOld j r f h1
+      · exact ⟨_, h3, by simp [markEntry, h2]⟩
+    · intro a b ra rb fa fb hab hta htb hk
+      rcases winOld a ra fa hta with h1 | ⟨hja, _, hfa, _, _, hca⟩ <;>
+      rcases winOld b rb fb htb with h2 | ⟨hjb, _, hfb, _, _, hcb⟩
+      · exact inv.sep a b ra rb fa fb hab h1 h2 hk
+      · left
+        have := fresh a ra fa rb h1 hk hcb
+        rw [hfb]; exact this
+      · right
+        have := fresh b rb fb ra h2 hk.symm hca
+        rw [hfa, markKey_kind _ _ hk]; exact this
+      · exact absurd (hja.trans hjb.symm) hab
+    · intro a r f h
+      rcases old a _ h with ⟨hj, he⟩ | ⟨hj, he⟩
+      · -- thread i has just done its Get, which missed
+        obtain ⟨⟨f0, ht⟩, hg, hnp⟩ := M.newMid r f he.symm
+        have hl : cfg.markLocks r.kind = true := by
+          have := ha r.kind
+          cases hm : cfg.mark r.kind <;> simp_all [Cfg.markLocks]
+        refine ⟨hl, ?_⟩
+        intro b rb fb hb hkb
+        rcases winOld b rb fb hb with h1 | ⟨hjb, hx, _⟩
+        · exact fresh b rb fb r h1 hkb (Or.inl ⟨f0, ht, hg⟩) |> fun h' => by rw [← markKey_kind _ _ hkb]; exact h'
+        · rw [← he] at hx; cases hx
+      · obtain ⟨hl, hm⟩ := inv.mid a r f he
+        refine ⟨hl, ?_⟩
+        intro b rb fb hb hkb
+        rcases winOld b rb fb hb with h1 | ⟨hjb, _, _, _, hcrit, _⟩
+        · exact hm b rb fb h1 hkb
+        · -- thread i wins while thread a ≠ i sits between Get and Put under the lock: both would hold it
+          have hci := hcrit (by rw [markKey_kind _ _ hkb]; exact hl)
+          have hla := inv.lockd a _ he (by simp [Thread.inCrit, hl, MarkPc.inCrit])
+          have hli := inv.lockd i t hi hci
+          rw [hla] at hli; injection hli with hh
+          exact absurd hh hj
+
+theorem MInv_applyEv (cfg : Cfg) (ha : AtomicMark cfg) (w : World) (ev : Ev) (inv : MInv cfg w) : MInv cfg (applyEv cfg w ev) := by
+  cases ev with
+  | step i => exact MInv_stepW cfg ha w i inv
+  | tick dt =>
+    refine ⟨inv.lockd, ?_, inv.kept, inv.sep, ?_⟩
+    · intro i t h; have := inv.time i t h; simp [applyEv] at *; omega
+    · intro j r f h
+      obtain ⟨h1, h2⟩ := inv.mid j r f h
+      refine ⟨h1, ?_⟩
+      intro i ri fi hi hk
+      have := h2 i ri fi hi hk
+      simp [applyEv] at *; omega
+
+theorem MInv_run (cfg : Cfg) (ha : AtomicMark cfg) (s : List Ev) (w : World) (inv : MInv cfg w) : MInv cfg (run cfg s w) := by
+  induction s generalizing w with
+  | nil => exact inv
+  | cons ev s ih => exact ih _ (MInv_applyEv cfg ha w ev inv)
+
+theorem MInv_init (cfg : Cfg) (st : Store) (reqs : List Req) : MInv cfg (init st reqs) := by
+  refine ⟨?_, ?_, ?_, ?_, ?_⟩
+  · intro i t h hc
+    obtain ⟨r, hr⟩ := init_thread st reqs i t h
+    subst hr; cases r <;> simp [Req.thread, Thread.inCrit, BurnPc.inCrit, MarkPc.inCrit] at hc
+  · intro i t h
+    obtain ⟨r, hr⟩ := init_thread st reqs i t h
+    subst hr; cases r <;> simp [Req.thread, Thread.fin, init]
+  · intro i r f h
+    obtain ⟨r', hr⟩ := init_thread st reqs i _ h
+    cases r' <;> simp [Req.thread] at hr
+  · intro i j ri rj fi fj _ h
+    obtain ⟨r', hr⟩ := init_thread st reqs i _ h
+    cases r' <;> simp [Req.thread] at hr
+  · intro i r f h
+    obtain ⟨r', hr⟩ := init_thread st reqs i _ h
+    cases r' <;> simp [Req.thread] at hr
+
+
+/-! ### dead secrets stay dead -/
+
+theorem alive_mono (incl : Bool) (now dt exp : Nat) (h : alive incl (now + dt) exp = true) : alive incl now exp = true := by
+  simp [alive] at *
+  rcases h with h | h
+  · left; omega
+  · by_cases hd : dt = 0
+    · right; exact ⟨h.1, by omega⟩
+    · left; omega
+
+/-- burn keys: a step leaves the entry as it is or removes it -/
+theorem stepThread_burnKey (cfg : Cfg) (st : Store) (now : Nat) (lock : Option Nat) (i : Nat) (t : Thread) (k : Key) (b : BurnKind)
+    (hk : k.ns = .burn b) :
+    stFind (stepThread cfg st now lock i t).2.1 k = stFind st k ∨ stFind (stepThread cfg st now lock i t).2.1 k = none := by
+  cases t with
+  | burn r pc f =>
+    simp only [stepThread]
+    rcases stepBurn_store cfg st now lock i r pc with hs | hs <;> rw [hs]
+    · exact Or.inl rfl
+    · by_cases hkk : k = r.key
+      · right; rw [hkk]; exact stFind_erase_self _ _
+      · left; exact stFind_erase_ne _ _ _ hkk
+  | mark r pc f =>
+    simp only [stepThread]
+    rcases stepMark_store cfg st now lock i r pc with hs | hs <;> rw [hs]
+    · exact Or.inl rfl
+    · left
+      have hkk : k ≠ r.key := by intro h; rw [h] at hk; simp [MarkReq.key] at hk
+      exact stFind_put_ne _ _ _ _ hkk
+
+theorem stGet_none_of_find_eq (incl : Bool) (s s' : Store) (now : Nat) (k : Key)
+    (h : stFind s' k = stFind s k ∨ stFind s' k = none) (hd : stGet incl s now k = none) : stGet incl s' now k = none := by
+  rcases h with h | h
+  · simp only [stGet] at hd ⊢; rw [h]; exact hd
+  · exact stGet_none_of_find_none _ _ _ _ h
+
+/-- the thread has not (yet) obtained the value and is not between the Get and the Delete of GetAndDelete -/
+def Thread.idle : Thread → Bool
+  | .burn _ (.atDel _) _ => false
+  | t => !t.took
+
+theorem stepBurn_idle_dead (cfg : Cfg) (st : Store) (now : Nat) (lock : Option Nat) (i : Nat) (r : BurnReq) (pc : BurnPc) (f : Nat)
+    (hd : stGet cfg.expInclusive st now r.key = none) (hi : (Thread.burn r pc f).idle = true) :
+    (stepThread cfg st now lock i (Thread.burn r pc f)).1.idle = true := by
+  have ha : (afterGad r none).took = false := by rw [afterGad_took]; rfl
+  have hb : ∀ v, afterGad r none ≠ .atDel v := by intro v; unfold afterGad; split <;> simp
+  cases pc <;> simp only [stepThread, stepBurn, hd] <;> (repeat' split) <;>
+    simp_all [Thread.idle, Thread.took, BurnPc.took, Outcome.took]
+  all_goals
+    generalize hg : afterGad r none = pc' at ha hb
+    cases pc' <;> simp_all
+
+structure DInv (cfg : Cfg) (k : Key) (i : Nat) (w : World) : Prop where
+  dead : stGet cfg.expInclusive w.store w.now k = none
+  idle : ∀ t, w.ths[i]? = some t → t.key = k ∧ t.idle = true
+
+theorem stepThread_key (cfg : Cfg) (st : Store) (now : Nat) (lock : Option Nat) (i : Nat) (t : Thread) :
+    (stepThread cfg st now lock i t).1.key = t.key := by cases t <;> rfl
+
+theorem DInv_applyEv (cfg : Cfg) (k : Key) (b : BurnKind) (hk : k.ns = .burn b) (i : Nat) (w : World) (ev : Ev)
+    (inv : DInv cfg k i w) : DInv cfg k i (applyEv cfg w ev) := by
+  cases ev with
+  | tick dt =>
+    refine ⟨?_, inv.idle⟩
+    have := inv.dead
+    simp only [applyEv, stGet] at this ⊢
+    split
+    · rename_i e he
+      rw [he] at this
+      simp only at this
+      by_cases hal : alive cfg.expInclusive (w.now + dt) e.exp = true
+      · have := alive_mono _ _ _ _ hal
+        simp_all
+      · simp [hal]
+    · rfl
+  | step j =>
+    simp only [applyEv, stepW]
+    cases hj : w.ths[j]? with
+    | none => exact inv
+    | some t =>
+      simp only
+      refine ⟨stGet_none_of_find_eq _ _ _ _ _ (stepThread_burnKey cfg w.store w.now w.lock j t k b hk) inv.dead, ?_⟩
+      intro t' ht'
+      rcases getElem?_set_cases _ _ _ _ _ ht' with ⟨hij, he⟩ | ⟨hij, he⟩
+      · subst hij
+        obtain ⟨h1, h2⟩ := inv.idle t hj
+        subst he
+        refine ⟨by rw [stepThread_key]; exact h1, ?_⟩
+        cases t with
+        | burn r pc f =>
+          exact stepBurn_idle_dead cfg w.store w.now w.lock i r pc f (by rw [← h1] at inv; exact inv.dead) h2
+        | mark r pc f => rw [← h1] at hk; simp [Thread.key, MarkReq.key] at hk
+      · exact inv.idle t' he
+
+theorem DInv_run (cfg : Cfg) (k : Key) (b : BurnKind) (hk : k.ns = .burn b) (i : Nat) (s : List Ev) (w : World)
+    (inv : DInv cfg k i w) : DInv cfg k i (run cfg s w) := by
+  induction s generalizing w with
+  | nil => exact inv
+  | cons ev s ih => exact ih _ (DInv_applyEv cfg k b hk i w ev inv)
+
+theorem idle_not_took (t : Thread) (h : t.idle = true) : t.took = false := by
+  cases t with
+  | burn r pc f => cases pc <;> simp_all [Thread.idle, Thread.took]
+  | mark r pc f => rfl
+
+/-! ### an authorization code is burned by every finished redemption attempt -/
+
+theorem stepBurn_code_done (cfg : Cfg) (st : Store) (now : Nat) (lock : Option Nat) (i : Nat) (r : BurnReq) (pc : BurnPc) (o : Outcome)
+    (hc : r.kind = .code) (h : (stepBurn cfg st now lock i r pc).1 = .done o) :
+    pc = .done o ∨ (stepBurn cfg st now lock i r pc).2.1 = stErase st r.key := by
+  have ha : ∀ v, afterGad r v ≠ .done o := by intro v; simp [afterGad, hc]
+  cases pc <;> simp only [stepBurn] at h ⊢ <;> (repeat' split at h) <;> simp_all
+
+/-- every finished authorization-code request has left the store without the code -/
+def CInv (w : World) : Prop :=
+  ∀ (j : Nat) (r : BurnReq) (o : Outcome) (f : Nat), w.ths[j]? = some (Thread.burn r (.done o) f) → r.kind = .code →
+    stFind w.store r.key = none
+
+theorem CInv_applyEv (cfg : Cfg) (w : World) (ev : Ev) (inv : CInv w) : CInv (applyEv cfg w ev) := by
+  cases ev with
+  | tick dt => exact inv
+  | step i =>
+    simp only [applyEv, stepW]
+    cases hi : w.ths[i]? with
+    | none => exact inv
+    | some t =>
+      simp only
+      intro j r o f h hc
+      have hkeep : stFind w.store r.key = none → stFind (stepThread cfg w.store w.now w.lock i t).2.1 r.key = none := by
+        intro hn
+        rcases stepThread_burnKey cfg w.store w.now w.lock i t r.key r.kind rfl with h1 | h1
+        · rw [h1]; exact hn
+        · exact h1
+      rcases getElem?_set_cases _ _ _ _ _ h with ⟨hji, he⟩ | ⟨hji, he⟩
+      · cases t with
+        | mark r' pc' f' => simp [stepThread] at he
+        | burn r' pc' f' =>
+          simp only [stepThread] at he ⊢
+          injection he with h1 h2 h3
+          subst h1
+          rcases stepBurn_code_done cfg w.store w.now w.lock i r pc' o hc h2.symm with h4 | h4
+          · subst h4
+            exact hkeep (inv i r o f' (by rw [hi]) hc)
+          · rw [h4]; exact stFind_erase_self _ _
+      · exact hkeep (inv j r o f he hc)
+
+theorem CInv_run (cfg : Cfg) (s : List Ev) (w : World) (inv : CInv w) : CInv (run cfg s w) := by
+  induction s generalizing w with
+  | nil => exact inv
+  | cons ev s ih => exact ih _ (CInv_applyEv cfg w ev inv)
+
+theorem CInv_init (st : Store) (reqs : List Req) : CInv (init st reqs) := by
+  intro j r o f h
+  obtain ⟨r', hr⟩ := init_thread st reqs j _ h
+  cases r' <;> simp [Req.thread] at hr
+
+
+/-! ### schedules that do not separate the Get and the Delete of one GetAndDelete -/
+
+def Thread.midBurn : Thread → Bool
+  | .burn _ (.atDel _) _ => true
+  | _ => false
+
+/-- whenever a request is between the Get and the Delete of GetAndDelete, the next event is its own step -/
+def NoSplit (cfg : Cfg) : World → List Ev → Prop
+  | _, [] => True
+  | w, ev :: rest =>
+    (∀ (j : Nat) (t : Thread), w.ths[j]? = some t → t.midBurn = true → ev = .step j) ∧ NoSplit cfg (applyEv cfg w ev) rest
+
+structure PInv (cfg : Cfg) (w : World) : Prop where
+  lockd : ∀ (i : Nat) (t : Thread), w.ths[i]? = some t → t.inCrit cfg = true → w.lock = some i
+  gone : ∀ (i : Nat) (t : Thread), w.ths[i]? = some t → t.took = true → stFind w.store t.key = none
+  uniq : ∀ (i j : Nat) (ti tj : Thread), w.ths[i]? = some ti → w.ths[j]? = some tj → ti.key = tj.key →
+    ti.took = true → tj.took = true → i = j
+  mid : ∀ (i : Nat) (r : BurnReq) (v : String) (f : Nat), w.ths[i]? = some (Thread.burn r (.atDel v) f) →
+    ∀ (j : Nat) (tj : Thread), w.ths[j]? = some tj → tj.key = r.key → tj.took = false
+
+theorem PInv_stepW (cfg : Cfg) (w : World) (i : Nat)
+    (hsolo : ∀ (j : Nat) (t : Thread), w.ths[j]? = some t → t.midBurn = true → j = i)
+    (inv : PInv cfg w) : PInv cfg (stepW cfg w i) := by
+  unfold stepW
+  cases hi : w.ths[i]? with
+  | none => exact inv
+  | some t =>
+    simp only
+    have S := stepThread_sum cfg w.store w.now w.lock i t (inv.lockd i t hi)
+    generalize stepThread cfg w.store w.now w.lock i t = x at S
+    have old : ∀ (j : Nat) (tj : Thread), (w.ths.set i x.1)[j]? = some tj → (j = i ∧ tj = x.1) ∨ (j ≠ i ∧ w.ths[j]? = some tj) :=
+      fun j tj h => getElem?_set_cases _ _ _ _ _ h
+    have tookOld : ∀ (j : Nat) (tj : Thread), (w.ths.set i x.1)[j]? = some tj → tj.took = true →
+        (∃ tj0, w.ths[j]? = some tj0 ∧ tj0.key = tj.key ∧ tj0.took = true) ∨ (j = i ∧ tj = x.1 ∧ t.took = false) := by
+      intro j tj h ht
+      rcases old j tj h with ⟨hj, he⟩ | ⟨hj, he⟩
+      · subst hj; subst he
+        cases htt : t.took
+        · exact Or.inr ⟨rfl, rfl, rfl⟩
+        · exact Or.inl ⟨t, hi, S.key.symm, htt⟩
+      · exact Or.inl ⟨tj, he, rfl, ht⟩
+    refine ⟨?_, ?_, ?_, ?_⟩
+    · intro j tj h hc
+      rcases old j tj h with ⟨hj, he⟩ | ⟨hj, he⟩
+      · subst hj; subst he; exact S.lock1 hc
+      · have hlj := inv.lockd j tj he hc
+        rcases S.lock2 with h2 | ⟨h2, _⟩ | ⟨h2, _⟩
+        · rw [h2]; exact hlj
+        · rw [h2] at hlj; cases hlj
+        · rw [h2] at hlj; injection hlj with hh; exact absurd hh.symm hj
+    · intro j tj h ht
+      obtain ⟨b, hb⟩ := took_burn tj ht
+      rcases tookOld j tj h ht with ⟨tj0, h0, hk, ht0⟩ | ⟨hj, he, hnt⟩
+      · have := inv.gone j tj0 h0 ht0
+        rw [hk] at this
+        exact S.burnKeys _ b hb this
+      · subst he
+        have := (S.newTaker hnt ht).1
+        rw [S.key]; exact this
+    · intro a b ta tb hta htb hk hat hbt
+      have fresh : ∀ (j : Nat) (tj : Thread), w.ths[j]? = some tj → tj.key = t.key → tj.took = true → t.took = false → x.1.took = true → j = i := by
+        intro j tj hj hkj htj hnt hxt
+        obtain ⟨_, _, h3⟩ := S.newTaker hnt hxt
+        rcases h3 with h3 | ⟨⟨r, v, f, hr⟩, _⟩
+        · obtain ⟨e, he⟩ := stGet_isSome_find _ _ _ _ h3
+          have := inv.gone j tj hj htj
+          rw [hkj, he] at this; cases this
+        · rw [hr] at hi
+          have := inv.mid i r v f hi j tj hj (by rw [hkj, hr]; rfl)
+          rw [this] at htj; cases htj
+      rcases tookOld a ta hta hat with ⟨ta0, ha0, hka, hta0⟩ | ⟨hja, hea, hna⟩ <;>
+      rcases tookOld b tb htb hbt with ⟨tb0, hb0, hkb, htb0⟩ | ⟨hjb, heb, hnb⟩
+      · exact inv.uniq a b ta0 tb0 ha0 hb0 (by rw [hka, hkb, hk]) hta0 htb0
+      · subst heb
+        rw [hjb]
+        exact fresh a ta0 ha0 (by rw [hka, hk, S.key]) hta0 hnb hbt
+      · subst hea
+        rw [hja]
+        exact (fresh b tb0 hb0 (by rw [hkb, ← hk, S.key]) htb0 hna hat).symm
+      · rw [hja, hjb]
+    · intro a r v f h j tj hjt hkj
+      rcases old a _ h with ⟨hj, he⟩ | ⟨hj, he⟩
+      · obtain ⟨hg, _⟩ := S.newMid r v f he.symm
+        cases htt : tj.took with
+        | false => rfl
+        | true =>
+          obtain ⟨e, he', _⟩ := stGet_some _ _ _ _ _ hg
+          rcases tookOld j tj hjt htt with ⟨tj0, h0, hk0, ht0⟩ | ⟨hji, hei, _⟩
+          · have := inv.gone j tj0 h0 ht0
+            rw [hk0, hkj, he'] at this; cases this
+          · rw [hei, ← he] at htt; simp [Thread.took] at htt
+      · exact absurd (hsolo a _ he rfl) hj
+
+theorem PInv_run (cfg : Cfg) (s : List Ev) (w : World) (hs : NoSplit cfg w s) (inv : PInv cfg w) : PInv cfg (run cfg s w) := by
+  induction s generalizing w with
+  | nil => exact inv
+  | cons ev s ih =>
+    obtain ⟨h1, h2⟩ := hs
+    refine ih _ h2 ?_
+    cases ev with
+    | tick dt => exact ⟨inv.lockd, inv.gone, inv.uniq, inv.mid⟩
+    | step i =>
+      refine PInv_stepW cfg w i ?_ inv
+      intro j t hj hm
+      have := h1 j t hj hm
+      injection this with h; exact h.symm
+
+theorem PInv_init (cfg : Cfg) (st : Store) (reqs : List Req) : PInv cfg (init st reqs) := by
+  have B := BInv_init cfg st reqs
+  refine ⟨B.lockd, B.gone, B.uniq, ?_⟩
+  intro i r v f h
+  obtain ⟨r', hr⟩ := init_thread st reqs i _ h
+  cases r' <;> simp [Req.thread] at hr
+
+
+/-! ### schedules that do not separate the Get and the Put of one mark consumer -/
+
+def Thread.midMark : Thread → Bool
+  | .mark _ (.atPut true) _ => true
+  | _ => false
+
+def NoSplitMark (cfg : Cfg) : World → List Ev → Prop
+  | _, [] => True
+  | w, ev :: rest =>
+    (∀ (j : Nat) (t : Thread), w.ths[j]? = some t → t.midMark = true → ev = .step j) ∧ NoSplitMark cfg (applyEv cfg w ev) rest
+
+structure QInv (cfg : Cfg) (w : World) : Prop where
+  lockd : ∀ (i : Nat) (t : Thread), w.ths[i]? = some t → t.inCrit cfg = true → w.lock = some i
+  time : ∀ (i : Nat) (t : Thread), w.ths[i]? = some t → t.fin ≤ w.now
+  kept : ∀ (i : Nat) (r : MarkReq) (f : Nat), w.ths[i]? = some (Thread.mark r (.done .ok) f) →
+    ∃ e, stFind w.store r.key = some e ∧ f + cfg.ttl (.mark r.kind) ≤ e.exp
+  sep : ∀ (i j : Nat) (ri rj : MarkReq) (fi fj : Nat), i ≠ j →
+    w.ths[i]? = some (Thread.mark ri (.done .ok) fi) → w.ths[j]? = some (Thread.mark rj (.done .ok) fj) →
+    ri.key = rj.key → fi + cfg.ttl (.mark ri.kind) ≤ fj ∨ fj + cfg.ttl (.mark ri.kind) ≤ fi
+  mid : ∀ (j : Nat) (r : MarkReq) (f : Nat), w.ths[j]? = some (Thread.mark r (.atPut true) f) →
+    ∀ (i : Nat) (ri : MarkReq) (fi : Nat), w.ths[i]? = some (Thread.mark ri (.done .ok) fi) → ri.key = r.key →
+      fi + cfg.ttl (.mark r.kind) ≤ w.now
+
+theorem QInv_stepW (cfg : Cfg) (w : World) (i : Nat)
+    (hsolo : ∀ (j : Nat) (t : Thread), w.ths[j]? = some t → t.midMark = true → j = i)
+    (inv : QInv cfg w) : QInv cfg (stepW cfg w i) := by
+  unfold stepW
+  cases hi : w.ths[i]? with
+  | none => exact inv
+  | some t =>
+    simp only
+    have S := stepThread_sum cfg w.store w.now w.lock i t (inv.lockd i t hi)
+    have M := stepThread_msum cfg w.store w.now w.lock i t
+    generalize stepThread cfg w.store w.now w.lock i t = x at S M
+    have old : ∀ (j : Nat) (tj : Thread), (w.ths.set i x.1)[j]? = some tj → (j = i ∧ tj = x.1) ∨ (j ≠ i ∧ w.ths[j]? = some tj) :=
+      fun j tj h => getElem?_set_cases _ _ _ _ _ h
+    have winOld : ∀ (j : Nat) (r : MarkReq) (f : Nat), (w.ths.set i x.1)[j]? = some (Thread.mark r (.done .ok) f) →
+        w.ths[j]? = some (Thread.mark r (.done .ok) f) ∨
+        (j = i ∧ x.1 = Thread.mark r (.done .ok) f ∧ f = w.now ∧ stFind x.2.1 r.key = some (markEntry cfg w.now r.kind) ∧
+          ((∃ f0, t = .mark r .atCall f0 ∧ stGet cfg.expInclusive w.store w.now r.key = none) ∨ (∃ f0, t = .mark r (.atPut true) f0))) := by
+      intro j r f h
+      rcases old j _ h with ⟨hj, he⟩ | ⟨hj, he⟩
+      · rcases M.newWinner r f he.symm with h1 | ⟨h1, h2, _, h4⟩
+        · left; rw [hj, hi, h1]
+        · right; exact ⟨hj, he.symm, h1, h2, h4⟩
+      · exact Or.inl he
+    have keepOld : ∀ (j : Nat) (r : MarkReq) (f : Nat), w.ths[j]? = some (Thread.mark r (.done .ok) f) →
+        ∃ e, stFind x.2.1 r.key = some e ∧ f + cfg.ttl (.mark r.kind) ≤ e.exp := by
+      intro j r f h
+      obtain ⟨e, he, hle⟩ := inv.kept j r f h
+      rcases M.markKeys r.key r.kind rfl with h1 | ⟨_, h1⟩
+      · exact ⟨e, by rw [h1]; exact he, hle⟩
+      · refine ⟨_, h1, ?_⟩
+        have := inv.time j _ h
+        simp [Thread.fin] at this
+        simp [markEntry]; omega
+    have fresh : ∀ (j : Nat) (r : MarkReq) (f : Nat) (ri : MarkReq), w.ths[j]? = some (Thread.mark r (.done .ok) f) → r.key = ri.key →
+        ((∃ f0, t = .mark ri .atCall f0 ∧ stGet cfg.expInclusive w.store w.now ri.key = none) ∨ (∃ f0, t = .mark ri (.atPut true) f0)) →
+        f + cfg.ttl (.mark r.kind) ≤ w.now := by
+      intro j r f ri h hk hc
+      rcases hc with ⟨f0, _, hg⟩ | ⟨f0, ht⟩
+      · obtain ⟨e, he, hle⟩ := inv.kept j r f h
+        have := stGet_none_find_some _ _ _ _ e hg (by rw [← hk]; exact he)
+        omega
+      · rw [ht] at hi
+        have := inv.mid i ri f0 hi j r f h hk
+        rw [markKey_kind _ _ hk]; exact this
+    refine ⟨?_, ?_, ?_, ?_, ?_⟩
+    · intro j tj h hc
+      rcases old j tj h with ⟨hj, he⟩ | ⟨hj, he⟩
+      · subst hj; subst he; exact S.lock1 hc
+      · have hlj := inv.lockd j tj he hc
+        rcases S.lock2 with h2 | ⟨h2, _⟩ | ⟨h2, _⟩
+        · rw [h2]; exact hlj
+        · rw [h2] at hlj; cases hlj
+        · rw [h2] at hlj; injection hlj with hh; exact absurd hh.symm hj
+    · intro j tj h
+      rcases old j tj h with ⟨hj, he⟩ | ⟨hj, he⟩
+      · subst he
+        have := inv.time i t hi
+        rcases M.fin with h1 | h1 <;> rw [h1] <;> simp <;> omega
+      · exact inv.time j tj he
+    · intro j r f h
+      rcases winOld j r f h with h1 | ⟨_, _, h2, h3, _⟩
+      · exact keepOld j r f h1
+      · exact ⟨_, h3, by simp [markEntry, h2]⟩
+    · intro a b ra rb fa fb hab hta htb hk
+      rcases winOld a ra fa hta with h1 | ⟨hja, _, hfa, _, hca⟩ <;>
+      rcases winOld b rb fb htb with h2 | ⟨hjb, _, hfb, _, hcb⟩
+      · exact inv.sep a b ra rb fa fb hab h1 h2 hk
+      · left
+        have := fresh a ra fa rb h1 hk hcb
+        rw [hfb]; exact this
+      · right
+        have := fresh b rb fb ra h2 hk.symm hca
+        rw [hfa, markKey_kind _ _ hk]; exact this
+      · exact absurd (hja.trans hjb.symm) hab
+    · intro a r f h b rb fb hb hkb
+      rcases old a _ h with ⟨hj, he⟩ | ⟨hj, he⟩
+      · obtain ⟨⟨f0, ht⟩, hg, _⟩ := M.newMid r f he.symm
+        rcases winOld b rb fb hb with h1 | ⟨hjb, hx, _⟩
+        · have := fresh b rb fb r h1 hkb (Or.inl ⟨f0, ht, hg⟩)
+          rw [← markKey_kind _ _ hkb]; exact this
+        · rw [← he] at hx; cases hx
+      · exact absurd (hsolo a _ he rfl) hj
+
+theorem QInv_run (cfg : Cfg) (s : List Ev) (w : World) (hs : NoSplitMark cfg w s) (inv : QInv cfg w) : QInv cfg (run cfg s w) := by
+  induction s generalizing w with
+  | nil => exact inv
+  | cons ev s ih =>
+    obtain ⟨h1, h2⟩ := hs
+    refine ih _ h2 ?_
+    cases ev with
+    | tick dt =>
+      -- a tick is only allowed while nobody is between Get and Put
+      refine ⟨inv.lockd, ?_, inv.kept, inv.sep, ?_⟩
+      · intro i t h; have := inv.time i t h; simp [applyEv] at *; omega
+      · intro j r f h
+        have := h1 j _ h rfl
+        cases this
+    | step i =>
+      refine QInv_stepW cfg w i ?_ inv
+      intro j t hj hm
+      have := h1 j t hj hm
+      injection this with h; exact h.symm
+
+theorem QInv_init (cfg : Cfg) (st : Store) (reqs : List Req) : QInv cfg (init st reqs) := by
+  have M := MInv_init cfg st reqs
+  refine ⟨M.lockd, M.time, M.kept, M.sep, ?_⟩
+  intro i r f h
+  obtain ⟨r', hr⟩ := init_thread st reqs i _ h
+  cases r' <;> simp [Req.thread] at hr
+
+
+/-- executable form of the head condition of `NoSplit` -/
+def midOk (w : World) (ev : Ev) : Bool :=
+  (List.range w.ths.length).all (fun j =>
+    match w.ths[j]? with
+    | some t => !t.midBurn || decide (ev = .step j)
+    | none => true)
+
+def noSplitB (cfg : Cfg) : World → List Ev → Bool
+  | _, [] => true
+  | w, ev :: rest => midOk w ev && noSplitB cfg (applyEv cfg w ev) rest
+
+theorem midOk_iff (w : World) (ev : Ev) :
+    midOk w ev = true ↔ ∀ (j : Nat) (t : Thread), w.ths[j]? = some t → t.midBurn = true → ev = .step j := by
+  unfold midOk
+  rw [List.all_eq_true]
+  constructor
+  · intro h j t hj hm
+    have hlt : j < w.ths.length := by
+      rcases Nat.lt_or_ge j w.ths.length with h' | h'
+      · exact h'
+      · rw [List.getElem?_eq_none h'] at hj; cases hj
+    have := h j (List.mem_range.mpr hlt)
+    rw [hj] at this
+    simp [hm] at this
+    exact this
+  · intro h j _
+    cases hj : w.ths[j]? with
+    | none => rfl
+    | some t =>
+      simp only
+      cases hm : t.midBurn with
+      | false => rfl
+      | true => simp [h j t hj hm]
+
+theorem noSplitB_iff (cfg : Cfg) (w : World) (s : List Ev) : noSplitB cfg w s = true ↔ NoSplit cfg w s := by
+  induction s generalizing w with
+  | nil => simp [noSplitB, NoSplit]
+  | cons ev s ih =>
+    simp only [noSplitB, NoSplit, Bool.and_eq_true]
+    rw [midOk_iff, ih]
 
 end Nuts.C05
